@@ -515,27 +515,71 @@ func (m *MonC17) limits(w *World, b *BlockCtx) {
 			}
 			return nil
 		}
-		if uv.Cmp(minV) >= 0 {
-			// the incoming delegation takes the slot, the smallest goes to the waitlist with its full value
-			if got := inStakes(cc, u.Owner); got == nil || got.Cmp(uv) != 0 {
-				w.Report("C17", "validator-set", "full-slots:incoming-not-staked", fmt.Sprintf("height %d: candidate %d has 1000 stakes (smallest %s); incoming delegation %s of %s should have replaced it, its stake is %v", b.Height, pc.ID, minV, uv, u.Owner.String(), got), b.Height)
-				return
+		// Judged on the state after the block: the payout of the same block may have grown the stakes
+		// before the slots were reassigned, so "smallest" is what the recalculation saw (>= the old values).
+		_ = minOwner
+		if len(cc.Stakes) > 1000 {
+			w.Report("C17", "validator-set", "full-slots:more-than-1000", fmt.Sprintf("height %d: candidate %d has %d stakes", b.Height, pc.ID, len(cc.Stakes)), b.Height)
+			return
+		}
+		staked, waiting := inStakes(cc, u.Owner), wl(u.Owner)
+		won := staked != nil && staked.Cmp(uv) >= 0
+		lost := waiting != nil && waiting.Cmp(uv) >= 0
+		if won == lost {
+			w.Report("C17", "validator-set", "full-slots:incoming-misplaced", fmt.Sprintf("height %d: candidate %d has 1000 stakes; incoming delegation %s of %s must end either as a stake or in the waitlist with its full value: stake %v, waitlist %v", b.Height, pc.ID, uv, u.Owner.String(), staked, waiting), b.Height)
+			return
+		}
+		var minCur *big.Int
+		for _, st := range cc.Stakes {
+			if st.Owner == u.Owner && st.Coin == 0 {
+				continue
 			}
-			if got := wl(minOwner); got == nil || got.Cmp(minV) < 0 {
-				w.Report("C17", "validator-set", "full-slots:loser-not-in-waitlist", fmt.Sprintf("height %d: candidate %d: the replaced smallest stake %s of %s should be in the waitlist with its full value, waitlist shows %v", b.Height, pc.ID, minV, minOwner.String(), got), b.Height)
-				return
+			if v := bi(st.BipValue); minCur == nil || v.Cmp(minCur) < 0 {
+				minCur = v
 			}
-			m.classes["full-slots-replaced"] = true
-		} else {
-			if got := wl(u.Owner); got == nil || got.Cmp(uv) < 0 {
-				w.Report("C17", "validator-set", "full-slots:small-incoming-not-in-waitlist", fmt.Sprintf("height %d: candidate %d has 1000 stakes (smallest %s); the smaller incoming delegation %s of %s should be in the waitlist with its full value, waitlist shows %v", b.Height, pc.ID, minV, uv, u.Owner.String(), got), b.Height)
-				return
-			}
-			if got := inStakes(cc, u.Owner); got != nil && got.Sign() > 0 {
-				w.Report("C17", "validator-set", "full-slots:small-incoming-staked", fmt.Sprintf("height %d: candidate %d: incoming delegation %s smaller than the smallest stake %s took a slot", b.Height, pc.ID, uv, minV), b.Height)
+		}
+		if lost {
+			// it may only lose when it is smaller than every stake that kept its slot
+			if minCur != nil && uv.Cmp(minCur) >= 0 {
+				w.Report("C17", "validator-set", "full-slots:not-smaller-incoming-lost", fmt.Sprintf("height %d: candidate %d: incoming delegation %s of %s went to the waitlist although a stake of %s kept its slot", b.Height, pc.ID, uv, u.Owner.String(), minCur), b.Height)
 				return
 			}
 			m.classes["full-slots-kept"] = true
+		} else {
+			// somebody lost the slot: in the waitlist with (at least) its full value, and not larger than
+			// anything that stayed
+			kicked := 0
+			for _, st := range pc.Stakes {
+				still := false
+				for _, ct := range cc.Stakes {
+					if ct.Owner == st.Owner && ct.Coin == st.Coin {
+						still = true
+					}
+				}
+				if still || ownerActedAddr(w, b, st.Owner) {
+					continue
+				}
+				kicked++
+				var got *big.Int
+				for _, x := range b.Cur.Raw.Waitlist {
+					if x.Owner == st.Owner && x.CandidateID == pc.ID && x.Coin == st.Coin {
+						got = bi(x.Value)
+					}
+				}
+				if got == nil || got.Cmp(bi(st.Value)) < 0 {
+					w.Report("C17", "validator-set", "full-slots:loser-not-in-waitlist", fmt.Sprintf("height %d: candidate %d: the replaced stake %s (coin %d) of %s should be in the waitlist with its full value, waitlist shows %v", b.Height, pc.ID, st.Value, st.Coin, st.Owner.String(), got), b.Height)
+					return
+				}
+				if st.Coin == 0 && minCur != nil && got.Cmp(minCur) > 0 && got.Cmp(uv) > 0 {
+					w.Report("C17", "validator-set", "full-slots:larger-stake-replaced", fmt.Sprintf("height %d: candidate %d: stake %s of %s lost its slot although a stake of %s stayed and the incoming delegation is %s", b.Height, pc.ID, got, st.Owner.String(), minCur, uv), b.Height)
+					return
+				}
+			}
+			if kicked == 0 && len(pc.Stakes) >= 1000 && len(cc.Stakes) > len(pc.Stakes) {
+				w.Report("C17", "validator-set", "full-slots:nobody-replaced", fmt.Sprintf("height %d: candidate %d had %d stakes and now has %d", b.Height, pc.ID, len(pc.Stakes), len(cc.Stakes)), b.Height)
+				return
+			}
+			m.classes["full-slots-replaced"] = true
 		}
 		w.Probe("c17_full_slots_checked")
 	}
